@@ -35,7 +35,7 @@ def gen_case(ctx, i):
         sizes = [(96, 112), (96, 112)]  # PAF grid 24x28 at stride 4: a batch of 34-44 frames exceeds both sides; limbs up to 37 px > edge-length limit 28 px
         F = int(r.integers(34, 45))
     if many:
-        sizes = [(160, 176), (160, 176)]  # ~4-5 animals x 3 nodes x 48-52 frames: more than 512 local peaks refined in one call
+        sizes = [(192, 208), (192, 208)]  # ~5-6 animals x 3 nodes x 48-52 frames: more than 512 local peaks refined in one call
         F = int(r.integers(48, 53))
     frames = []
     for k in range(F):
